@@ -6,6 +6,8 @@ package main
 //       reqs: ";"-joined  <query bytes>~<cancel 0|1>~<upto>   posted before the loop runs, in this order
 //   matcher hist <lines A> <lines B> <reqs> <tac>  => ";"-joined published indices per request
 //       reqs: ";"-joined <query>~<set 0|1>~<upto>~<final>~<sort>; a switch of set is a reload (major revision)
+//   matcher histo <lines A> <lines B> <reqs> <tac> <fuzzy> <tail>  => ";"-joined <indices>~<first item>.<items>.<contiguous>~<changed>~<minor>
+//       the same through VerifMatcherHistoryOpts: exact mode, --tail (Snapshot trims; a trim bumps the minor revision)
 //   matcher conc <lines> <queries> <sort> <tac> <yield>  => ";"-joined <query>~<snapshot count>~<indices>~<frozen>
 //   matcher scan <lines> <query> <sort> <tac> <partitions> <cancel 0|1|2>  => <cancelled> <hasMerger> <indices>
 
@@ -72,6 +74,33 @@ func matcherEval(op string, a []string) string {
 			parts = append(parts, encInts(xs))
 		}
 		return strings.Join(parts, ";")
+	case "histo":
+		second := []string{}
+		for _, l := range decStrList(a[1]) {
+			second = append(second, string(l))
+		}
+		reqs := []fzf.VerifHistReq{}
+		for _, r := range strings.Split(a[2], ";") {
+			f := strings.Split(r, "~")
+			reqs = append(reqs, fzf.VerifHistReq{Query: string(decBytes(f[0])), Set: atoi(f[1]), Upto: atoi(f[2]), Final: f[3] == "1", Sort: f[4] == "1"})
+		}
+		res := fzf.VerifMatcherHistoryOpts([][]string{lines, second}, reqs, a[3] == "1", a[4] == "1", atoi(a[5]))
+		parts := []string{}
+		for _, ans := range res {
+			xs := make([]int, len(ans.Idx))
+			for i, v := range ans.Idx {
+				xs[i] = int(v)
+			}
+			first, contig := 0, true
+			if len(ans.Items) > 0 {
+				first = int(ans.Items[0])
+			}
+			for i, v := range ans.Items {
+				contig = contig && int(v) == first+i
+			}
+			parts = append(parts, fmt.Sprintf("%s~%d.%d.%d~%d~%d", encInts(xs), first, len(ans.Items), b2i(contig), b2i(ans.Changed), ans.Minor))
+		}
+		return strings.Join(parts, ";")
 	case "conc":
 		qs := []string{}
 		for _, q := range decStrList(a[1]) {
@@ -103,7 +132,11 @@ func matcherGen(r *rand.Rand, count int, emit func(op string, args ...string)) {
 		}
 		qs := []string{"a", "b", "fo", "ba", "o", "", "x", "foo", "!a", "a | b"}
 		if r.Intn(3) == 0 {
-			emitHist(r, emit)
+			if r.Intn(2) == 0 {
+				emitHistOpts(r, emit)
+			} else {
+				emitHist(r, emit)
+			}
 			continue
 		}
 		if r.Intn(4) == 0 {
@@ -224,6 +257,91 @@ func emitHist(r *rand.Rand, emit func(op string, args ...string)) {
 	}
 	// finality is monotone within one input
 	emit("hist", encStrList(first), encStrList(second), strings.Join(fixFinal(reqs), ";"), itoa(r.Intn(2)))
+}
+
+// emitHistOpts: histories in exact mode (anchored terms next to plain ones), with --tail (small
+// steps, the same query again and again), and reloads whose input grows to the size of the old one.
+func emitHistOpts(r *rand.Rand, emit func(op string, args ...string)) {
+	mode := r.Intn(3)
+	n0 := []int{100, 200, 230, 300, 500}[r.Intn(5)]
+	sparse := func(n int) [][]byte {
+		rare := []string{"foo bar", "bar foo", "foobar", "bar car", "car bar", "foo", "bar", "barfoo car", "foo barcar", "Bar foo", "xbar"}
+		out := [][]byte{}
+		for k := 0; k < n; k++ {
+			if r.Intn(10) == 0 {
+				out = append(out, []byte(rare[r.Intn(len(rare))]))
+			} else {
+				out = append(out, []byte(fmt.Sprintf("%s%d", []string{"x", "yz", "q-", "z z"}[r.Intn(4)], r.Intn(1000))))
+			}
+		}
+		return out
+	}
+	first, second := sparse(n0), sparse(n0+r.Intn(150))
+	reqs := []string{}
+	fuzzy, tail := 1, 0
+	switch mode {
+	case 0: // exact mode: which terms may narrow the search space
+		fuzzy = r.Intn(4) / 3
+		chains := [][]string{
+			{"bar ^foo", "bar", "bar car$", "bar"},
+			{"bar", "bar car$", "bar ^foo", "bar"},
+			{"foo 'bar", "foo", "foo ^bar", "foo bar$", "foo"},
+			{"bar", "bar ^bar$", "bar", "bar 'car'"},
+			{"foo !bar", "foo", "foo bar | car", "foo"},
+			{"^foo", "foo", "foo$", "fo"},
+		}
+		chain := chains[r.Intn(len(chains))]
+		upto := n0
+		if r.Intn(3) == 0 {
+			upto = 100 * (1 + r.Intn(n0/100))
+		}
+		for k, q := range chain {
+			final := upto == n0
+			if k == len(chain)-1 {
+				upto, final = n0, true
+			}
+			reqs = append(reqs, fmt.Sprintf("%s~0~%d~%d~1", encStr(q), upto, b2i(final)))
+		}
+	case 1: // --tail: the list keeps its size while its contents move on
+		tail = []int{3, 5, 50, 100, 101, 150, 250}[r.Intn(7)]
+		qs := []string{"b", "foo", "bar", "x", ""}
+		q := qs[r.Intn(len(qs))]
+		upto := r.Intn(tail + 2)
+		nreq := 4 + r.Intn(10)
+		for k := 0; k < nreq; k++ {
+			switch r.Intn(5) {
+			case 0:
+				upto += 100
+			case 1:
+			default:
+				upto += 1 + r.Intn(7)
+			}
+			if upto > n0 {
+				upto = n0
+			}
+			if r.Intn(6) == 0 {
+				q = qs[r.Intn(len(qs))]
+			}
+			final := k == nreq-1
+			if final {
+				upto = n0
+			}
+			reqs = append(reqs, fmt.Sprintf("%s~0~%d~%d~1", encStr(q), upto, b2i(final)))
+		}
+	default: // a reload whose input reaches the size of the input it replaced
+		q := []string{"bar", "foo", "x", "b"}[r.Intn(4)]
+		sorted := r.Intn(4) > 0
+		reqs = append(reqs, fmt.Sprintf("%s~0~%d~1~%d", encStr(q), n0, b2i(sorted)))
+		small := 1 + r.Intn(n0-1)
+		if r.Intn(2) == 0 { // a sort toggle instead of a reload empties the cache too
+			sorted = !sorted
+			reqs = append(reqs, fmt.Sprintf("%s~0~%d~1~%d", encStr(q), n0, b2i(sorted)))
+		}
+		reqs = append(reqs, fmt.Sprintf("%s~1~%d~0~%d", encStr(q), small, b2i(sorted)))
+		reqs = append(reqs, fmt.Sprintf("%s~1~%d~0~%d", encStr(q), n0, b2i(sorted)))
+		reqs = append(reqs, fmt.Sprintf("%s~1~%d~1~%d", encStr(q), len(second), b2i(sorted)))
+	}
+	emit("histo", encStrList(first), encStrList(second), strings.Join(fixFinal(reqs), ";"), itoa(r.Intn(2)), itoa(fuzzy), itoa(tail))
 }
 
 func fixFinal(reqs []string) []string {
